@@ -22,6 +22,9 @@ def obligations(tier):
         for (it, ot) in [(0, 0), (5, 6), (3, 7), (6, 1)]:
             for kind in (2, 3, 8):
                 obls.append(api_step(op, it, ot, kind, 2))
+    obls += [api_step(0, 4, 4, 2, 2, omp=1), api_step(2, 4, 4, 2, 2, omp=1), api_step(0, 5, 7, 3, 2, omp=1), api_step(2, 1, 2, 2, 2, omp=1)]      # OpenMP build's per-channel loops
+    from vf.props import C11 as _c11
+    obls += [_c11.conv(dbl, ot, ch, n, n - 1, c=ch - 1) for dbl in (0, 1) for ot in (2, 3) for ch in (1, 2) for n in (15, 16, 31)]      # integer output converters on exactly-sized buffers at the edges of their 16-sample blocks
     obls += kern_set(tier)        # L3: every access of the real kernels inside the FIFO allocations / coefficient table, library asserts on
     obls += [plan_obl(0), plan_obl(1), plan_obl(1, 0), plan_obl(2)]      # planner pieces of cr.c (set_dft_length / dft_stage_init / validation prefix)
     obls.append(init_qq_obl())      # real _soxr_init for the quick recipe: cubic stage inside its envelope
